@@ -123,6 +123,29 @@ def _normal_orientation(res, fn, label):
         raise AnalysisError(f"NRM-1: the operands of the cross product in {label} are not recognised as differences of face corners")
 
 
+def _reachable(index, cls, fn, depth=2):
+    """fn and the private helpers (methods through the MRO, module functions) it calls, breadth first."""
+    out, seen, frontier = [fn], {id(fn.node)}, [fn]
+    for _ in range(depth):
+        nxt = []
+        for f in frontier:
+            for n in ast.walk(f.node):
+                if not isinstance(n, ast.Call):
+                    continue
+                tgt = None
+                if isinstance(n.func, ast.Attribute) and isinstance(n.func.value, ast.Name) and n.func.value.id in ("self", "cls"):
+                    m = cls.lookup(n.func.attr)
+                    tgt = m if isinstance(m, FuncInfo) else None
+                elif isinstance(n.func, ast.Name):
+                    tgt = f.module.functions.get(n.func.id)
+                if tgt is not None and id(tgt.node) not in seen:
+                    seen.add(id(tgt.node))
+                    out.append(tgt)
+                    nxt.append(tgt)
+        frontier = nxt
+    return out
+
+
 def _negated(call, fn_node):
     """the cross product is negated where it is written: -np.cross(..) / -1 * np.cross(..) / np.negative(np.cross(..))."""
     for n in ast.walk(fn_node):
@@ -208,7 +231,14 @@ def run(index, tier="quick", seed=0) -> Result:
             raise ValueError
     except (ValueError, SyntaxError, TypeError, IndexError):
         raise AnalysisError("CCW-1: the kabsch alignment of ConvexPolyhedron.sort_faces is not of the recognised form ([n, -n] -> [+z, -z])")
-    lex = [n for n in ast.walk(sf.node) if isinstance(n, ast.Call) and ast.unparse(n.func).endswith("lexsort") and n.args]
+    lex = []
+    lex_fn = sf
+    for cand in _reachable(index, index.cls("ConvexPolyhedron"), sf):
+        lex = [n for n in ast.walk(cand.node) if isinstance(n, ast.Call) and ast.unparse(n.func).endswith("lexsort") and n.args]
+        if lex:
+            lex_fn = cand
+            break
+    sf_outer, sf = sf, lex_fn        # the sort keys are analysed in the function that contains the lexsort (possibly a helper)
     if lex:
         keys = lex[0].args[0]
         if isinstance(keys, (ast.Tuple, ast.List)) and keys.elts:
@@ -237,6 +267,7 @@ def run(index, tier="quick", seed=0) -> Result:
                 raise AnalysisError("CCW-1: the sort keys of ConvexPolyhedron.sort_faces are not recognised (no arctan2 angle among them)")
     else:
         raise AnalysisError("CCW-1: ConvexPolyhedron.sort_faces no longer orders the vertices with np.lexsort (sort not recognised)")
+    sf = sf_outer
     # ---------------- NBR-1
     fnb = _fn(index, "Polyhedron", "_find_neighbors")
     loops = [n for n in ast.walk(fnb.node) if isinstance(n, ast.For) and isinstance(n.target, ast.Tuple) and len(n.target.elts) >= 2
